@@ -502,7 +502,9 @@ func genRequest(rng *rand.Rand) (string, *nodev1.GovernanceMessage, expect) {
 }
 
 func moduleName(rng *rand.Rand, ex *expect, bad func(string)) string {
-	mod := []string{"TokenBridge", "TokenBridge", "TokenBridge", "", "NFTBridge", strings.Repeat("m", 32), strings.Repeat("m", 33), strings.Repeat("x", 200)}[rng.Intn(8)]
+	// byte length, not character count, is what the 32-byte module field holds: include multi-byte names
+	mod := []string{"TokenBridge", "TokenBridge", "TokenBridge", "", "NFTBridge", strings.Repeat("m", 32), strings.Repeat("m", 33), strings.Repeat("x", 200),
+		strings.Repeat("é", 16), strings.Repeat("é", 17), strings.Repeat("桥", 11), "Token" + strings.Repeat("é", 14), string([]byte{0xff, 0xfe, 0x00, 0x01})}[rng.Intn(13)]
 	if len(mod) > 32 {
 		bad("module>32-bytes")
 		return mod
